@@ -45,7 +45,7 @@ func runC03(r *Run) {
 func c03One(r *Run, in *instance) {
 	w := walkVerifier(in, walkOpts{Wrapper: "fixed", Cap: capPlain, Field: true, PermGL: true, PermBN: true, NoShape: true})
 	if w.Panic != "" || w.Err != nil {
-		r.Infra("walk %s failed: %s %v", in.Name, w.Panic, w.Err)
+		walkFailed(r, in, "fixed", w)
 		return
 	}
 	e := w.E
